@@ -8,7 +8,7 @@ BASE_CONSTS = dict(
     Fut=50, ExpSet={0, 1, 3, 4, 50}, ConflictCarriesValue=True,
     FaultKinds=set(), FaultBudget=0,
     Watchers=set(), WatchStarts={0}, WatchPrefixes={0}, PrefixOf="<- MCPrefixOf",
-    CacheSize=2, SubCap=2, SeqDetail=False, TsoDetail=False,
+    CacheSize=2, SubCap=2, RingCap=0, ClearInvalid=True, SeqDetail=False, TsoDetail=False,
     Readers=set(), ReadRevs={0}, MaxReads=0, SnapAtTs=False, Compactors=set(), CompactRevs=set(), MaxCompacts=0, DelFaults=set(), CompactDetail=False,
     EagerSeq=False, FixedOps="<- MCNoFixedOps", LazyWatchers=set(), AtomicWrites=False, GenHist=False,
 )
@@ -22,7 +22,7 @@ T_MON = {
     "C01": ["M_CommitAtomic", "M_WriteCondition", "M_WriteValue", "M_PerKeyIncreasing", "M_FailedOnlyIfDiffered",
             "M_FailedLeavesKey", "M_SuccessMeansWritten", "M_DeleteReturnsPrev", "M_IndexAgrees", "M_NoPanic"],
     "C02": ["M_UniqueRevision", "M_RealTimeOrder", "M_PerKeyIncreasing", "M_HeaderCoversData", "M_NoPanic"],
-    "C04": ["M_NoOvertake", "M_CommittedMonotone", "M_CommittedWasReported", "M_Resolved", "M_ReadIsSnapshot", "M_ReadStable", "M_HeaderCoversData", "M_NoPanic"],
+    "C04": ["M_NoOvertake", "M_CommittedMonotone", "M_CommittedWasReported", "M_Resolved", "M_ReadIsSnapshot", "M_ReadStable", "M_HeaderCoversData", "M_NoPanic", "M_ResolvedAfterWrap"],
 }
 
 
@@ -221,6 +221,27 @@ def check_write(prop, tier, seed):
             log("replay %s/%s: %d behaviours, agreed %d, diverged %d, observable mismatch %d" % (
                 engine, mode, rep.get("behaviours", 0), rep.get("agreed", 0), rep.get("diverged", 0), rep.get("obs_mismatch", 0)))
             alltraces += traces
+        if prop == "C04":
+            # the write-result ring and its wrap-around: 3 slots in the model, once around the real 100000 slots in the code
+            ring = dict(BASE_CONSTS, RingCap=3, Writers={"c1"}, OpsPer=3, InitStates={"none", "live"}, ExpSet={0, 1, 4, 5})
+            r = run_mc(work, ring, MC_INV[prop] + ["RingNeverFull", "Converged"], name="mcring")
+            cov["states"] += r["distinct"]; cov["transitions"] += r["states"]
+            cov["mc_runs"].append(dict(config="write-result ring of 3 slots, 1 writer x 3 requests (wrap-around)", distinct_states=r["distinct"],
+                                       states_generated=r["states"], invariants=MC_INV[prop] + ["RingNeverFull", "Converged"]))
+            rn = tlc(work, "MC_Write.tla", mc_cfg(dict(ring, ClearInvalid=False), ["Resolved"]), timeout=900, name="mcring2")
+            cov["mc_runs"].append(dict(config="same, the slot of an invalid event is not emptied (what the sequencer must not do)", counterexample_found=bool(rn["violated"])))
+            if tier != "quick":
+                r = run_mc(work, dict(ring, RingCap=4, Writers={"c1", "c2"}, OpsPer=2, ExpSet={0, 4}), MC_INV[prop] + ["RingNeverFull"], name="mcring3")
+                cov["states"] += r["distinct"]; cov["transitions"] += r["states"]
+                cov["mc_runs"].append(dict(config="ring of 4 slots, 2 writers x 2 requests", distinct_states=r["distinct"], states_generated=r["states"]))
+            d = work.sub("wraprun")
+            tr = os.path.join(d, "wrap.ndjson"); rp = os.path.join(d, "wrap.json")
+            rc, out = run([binp, "wraprun", "-out", tr, "-report", rp, "-engine", "memkv"], env=GOENV, timeout=600)
+            if rc != 0 or not os.path.exists(rp):
+                raise Undecided("wraprun failed (rc=%s): %s" % (rc, (out or "")[-800:]))
+            alltraces.append(tr)
+            cov["replay"].append(dict(what="once around the real write-result ring: 100200 revisions with a failed write every 997th, then list + watch", **json.load(open(rp))))
+            log("wraprun: %s" % (out or "").strip()[-160:])
         if prop in ("C02", "C04"):
             # "reads never overtake a write" / "a header never stays behind its data": reads in flight as processes of the model
             alltraces += reader_part(work, binp, cov, tier == "quick", seed)
